@@ -353,6 +353,7 @@ class Sim:
         self.probes = {}
         self.faults = {}
         self.master = None  # pty master fd in interactive mode
+        self.idle_cb = None
         self.clock = 1_700_000_000.0
         self.clock_reads = 0
 
@@ -472,6 +473,8 @@ class Sim:
         deadline = time.time() + WATCHDOG
         spins = 0
         while True:
+            if self.idle_cb is not None:
+                self.idle_cb()
             line = self._shell_line()
             if line is not None:
                 self.shell_pending = line
